@@ -1,9 +1,15 @@
 HOOK_COMMITS = ["0cc1f16"]
-FIX_COMMITS = ["f6ef902", "7953ad1", "5a73e74", "74bd988", "162c4e5", "d681b06", "d1e67ed", "f178a91", "418e2ff", "882956a", "d9c0ebc", "11b0018"]
+FIX_COMMITS = ["f6ef902", "7953ad1", "5a73e74", "74bd988", "162c4e5", "d681b06", "d1e67ed", "f178a91", "418e2ff", "882956a", "d9c0ebc", "11b0018", "91d1a50", "a9847ff", "743a30c"]
 NOTES = "All checks: bin/check <ID> --tier quick|thorough [--replay file]; exit 0/1/2 (2 = TOOL-ERROR). See DESIGN.md."
 NOT_APPLICABLE = {}
 _EVAL_NOTE = "Program-level values of 32/64-bit types are restricted to magnitude < 2^30 (TLC integers); runs outside the modelled fragment are counted as out_of_model and not judged. The typed AST is the checker's (parser desugarings such as <= and op-assignment are already applied), so duplicated evaluation introduced by the parser is not visible in this direction. Trusted: the projection typed AST -> JSON (harness/src/proj.rs), JSON value -> Literal conversion, TLC."
 CHECKS = {
+    "C08": {
+        "text": "Patterns.tla defines Matches / Exhaustive / FirstMatch / WitnessOK over finite point domains (every value of bool, u8, i8; abstract boundary points with gap representatives for wider types; products for tuples, an enum and a struct with ..); Gen_Arms.tla builds every arm list up to the bound from boundary-directed pattern pools and emits verdict and deciding arm per value; the real checker's verdict must be equal, accepted matches are evaluated on every listed value, and the missing-case witnesses of rejected matches are validated by TLC (Trace_Witness.tla).",
+        "design_ref": "DESIGN.md §5 C08",
+        "note": "Bounds: <=2 arms with the full pool and <=3 arms with a reduced pool (quick), <=3 arms full pool (thorough); wide types through abstract points (exact for interval patterns whose end points are cluster points); signed non-negative literals written with and without suffix. Trusted: pattern/type rendering and witness -> abstract pattern conversion in harness/src/c08.rs, TLC.",
+        "technique": "TLC-enumerated arm lists with oracle verdicts replayed into checker and compiler; TLC validation of the checker's witnesses",
+    },
     "C09": {
         "text": "Layout.tla is the documented bit layout; Gen_Literals.tla enumerates the bounded type universe x boundary values and, for each value, the expected bits and the adversarial family of literal spellings with their denotation (canonical / same value / no value); the harness replays every spelling into literal_arg, set_literal, as_bits, from_unwrapped_bits, to_string+parse_arg, text perturbations and the identity program.",
         "design_ref": "DESIGN.md §5 C09",
